@@ -638,9 +638,40 @@ def order_selection(prog):
     inner = some_payload(prog, r)
     ok = inner is not None and show(inner) in ("var(first(arg1, first(arg1, arg2, arg3), arg4))",
                                                "var(first(arg1, arg2, first(arg1, arg3, arg4)))")
-    out.append(inst("VO", "%s:by-level" % fe.npath, OK if ok else VIOLATION, fe, None,
-                    "top variable of first(first(f, g), h)" if ok else
-                    "first_essential is %s, expected the top variable of first(first(f,g),h)" % show(r)[:80]))
+    verdict, why = (OK, "top variable of first(first(f, g), h)") if ok else \
+        (VIOLATION, "first_essential is %s, expected the top variable of first(first(f,g),h)" % show(r)[:80])
+    if not ok:
+        # the selection written as a chain over the three operands: `[a, b, c].into_iter().filter_map(var).reduce(|x, y| ..)`
+        # (or min_by_key / min_by / fold).  What matters is what the candidates are ranked by: the position of the label
+        # in the order (`get(label)` / `var_to_pos[label]`), not the label's number and not the inverse table.
+        fe_w = prog.default_args_worker(fe) if hasattr(prog, "default_args_worker") else fe
+        body = fe_w if fe_w is not fe else fe
+        rr = strip(body.terms.ret) if body.terms.ret is not None else r
+        sel = [x for x in [rr] + list(mir.subterms(rr)) if mir.is_call(x) and x[1].name in ("reduce", "min_by_key", "min_by", "fold", "max_by_key", "max_by")]
+        if sel and "arg2" in show(rr) and "arg3" in show(rr) and "arg4" in show(rr):
+            kids = [g for g in prog.lib_fns if g.npath.startswith(body.npath + "::{closure")]
+            names, fields = set(), set()
+            for g in kids:
+                for cs in g.terms.calls:
+                    if "VarOrder" in cs.callee.key() or cs.callee.name in ("value", "value_usize", "index", "cmp", "partial_cmp"):
+                        names.add(cs.callee.name)
+                        for a in cs.args:
+                            for y in [a] + list(mir.subterms(a)) if isinstance(a, tuple) else []:
+                                if isinstance(y, tuple) and y and y[0] == "field" and y[2] in ("var_to_pos", "pos_to_var"):
+                                    fields.add(y[2])
+            by_pos = ("get" in names or "var_to_pos" in fields) and "pos_to_var" not in fields
+            if sel[0][1].name.startswith("max"):
+                verdict, why = VIOLATION, "first_essential selects with %s: the *last* of the three top variables" % sel[0][1].name
+            elif by_pos:
+                verdict, why = OK, "the three top variables are ranked by their position in the order (%s over [f, g, h])" % sel[0][1].name
+            elif "pos_to_var" in fields:
+                verdict, why = VIOLATION, ("first_essential ranks the candidates through pos_to_var, the table from positions to labels, "
+                                           "indexed by a label: that is the inverse permutation, not the position")
+            elif names & {"value", "value_usize"}:
+                verdict, why = VIOLATION, "first_essential ranks the candidates by the number of their label, not by their position in the order"
+            else:
+                verdict, why = UNDECIDED, "?first_essential selects with %s over the operands; what it ranks by was not recognised" % sel[0][1].name
+    out.append(inst("VO", "%s:by-level" % fe.npath, verdict, fe, None, why))
     return out
 
 
